@@ -29,7 +29,7 @@ def main():
         groups = {}
         for c in cases:
             p = c["prog"]
-            groups.setdefault((p["mode"], p["deps"], p["async"], len(p["params"]), p.get("stamp", False), p.get("featoff", False), p.get("viafeat", False)), []).append(c)
+            groups.setdefault((p["mode"], p["deps"], p["async"], len(p["params"]), p.get("stamp", False), p.get("featoff", False), p.get("viafeat", False), "lstr" in p["params"]), []).append(c)
         sel = []
         for k in sorted(groups, key=str):
             g = groups[k]
@@ -76,7 +76,7 @@ def main():
     chk.cov["programs_rejected_by_rustc"] = len(dropped)
     chk.cov["distinct_nontrivial"] = len({json.dumps(c["prog"], sort_keys=True) for c in sel if c["case"] not in dropped})
     chk.cov["rule"] = ("mockable programs: fn | mod of 2..3 same-signature fns | entraited trait x deps {generic &D, &impl Bound, no_deps, concrete} x "
-                       "sync/async x {unimock switched on by the `unimock` option; by the cargo feature alone, through `entrait_export(.., export = true)`} x {entrait's unimock feature on; off, with the `unimock` option and the crate's own unimock dependency (sync, <= 1 parameter)} x <= N parameters of kinds {i32, String, &str, destructured tuple}; scenarios mock / partial / impl (or "
+                       "sync/async x {unimock switched on by the `unimock` option; by the cargo feature alone, through `entrait_export(.., export = true)`} x {entrait's unimock feature on; off, with the `unimock` option and the crate's own unimock dependency (sync, <= 1 parameter)} x <= N parameters of kinds {i32, String, &str, &'l str with an explicit lifetime parameter of the function, destructured tuple}; scenarios mock / partial / impl (or "
                        "partial-panics for concrete deps and traits) per method; quick: four seeded programs per (mode, deps, async, arity)")
     chk.cov["exhaustive"] = bool(thorough)
     chk.cov["samples"] = [{"program": c["prog"], "scenarios": c["scens"], "unmock_with": c["unmock"]} for c in sel[:: max(1, len(sel) // 5)][:5]]
